@@ -141,8 +141,30 @@ def parse(s):
     return Parser(s).parse()
 
 
+def ctype(e):
+    """static C type of an expression whose identifiers are all integer-typed: 'int' or 'double'"""
+    k = e[0]
+    if k == "float":
+        return "double"
+    if k in ("int", "name", "index", "member"):
+        return "int"
+    if k == "un":
+        return "int" if e[1] in ("!", "~") else ctype(e[2])
+    if k == "?:":
+        return "double" if "double" in (ctype(e[2]), ctype(e[3])) else "int"
+    if k == "call":
+        return "double"
+    if k == "bin":
+        if e[1] in ("+", "-", "*", "/"):
+            return "double" if "double" in (ctype(e[2]), ctype(e[3])) else "int"
+        return "int"
+    raise CSyntaxError(f"cannot type {e}")
+
+
 class CEval:
-    """evaluate a parsed C expression; `ops` supplies the number semantics"""
+    """evaluate a parsed C expression; `ops` supplies the number semantics.
+    modes: int (integer division / remainder), real (every division real), mixed (identifiers are ints, float literals
+    are doubles: a division is an integer division iff both operands have integer type)"""
 
     def __init__(self, env, mode="int", truth=None, on_div=None):
         self.env = env
@@ -187,6 +209,8 @@ class CEval:
             if op == "||":
                 return 1 if (self.truth(self.ev(e[2])) or self.truth(self.ev(e[3]))) else 0
             a, b = self.ev(e[2]), self.ev(e[3])
+            if self.mode == "mixed" and op == "/" and "double" in (ctype(e[2]), ctype(e[3])):
+                return a / b          # C's usual arithmetic conversions: one double operand makes it a double division
             return self.binop(op, a, b)
         raise CSyntaxError(f"cannot evaluate {e}")
 
